@@ -156,9 +156,30 @@ def rect_guard(ctx):
     ctx.ob('RECT-GUARD', AT + '::Atoms', 'the atom count is set by the constructor only', set(w) == {'__init__'}, str(w))
 
 
+def _class_fresh_summaries(ctx, rel, q, summaries, depth=0):
+    """call summaries for the helper methods of the same class that q delegates to: '.name' -> fresh when every return of that method is fresh (computed recursively)"""
+    out = dict(summaries)
+    if '.' not in q or depth > 3:
+        return out
+    clsname = q.rsplit('.', 1)[0]
+    fn = ctx.fn(rel, q)
+    cls = ctx.fn(rel, clsname)
+    for c in calls_in(fn):
+        f = c.func
+        if isinstance(f, ast.Attribute) and isinstance(f.value, ast.Name) and f.value.id == 'self' and ('.' + f.attr) not in out:
+            m = [x for x in cls.body if isinstance(x, ast.FunctionDef) and x.name == f.attr and x is not fn]
+            if len(m) == 1:
+                sub = _class_fresh_summaries(ctx, rel, clsname + '.' + f.attr, out, depth + 1)
+                eff = effects.Effects(m[0], summaries=sub)
+                rets = [s_ for s_ in ast.walk(m[0]) if isinstance(s_, ast.Return) and s_.value is not None]
+                if rets and all(eff.origins(r_.value) == {FRESH} for r_ in rets):
+                    out['.' + f.attr] = ('fresh',)
+    return out
+
+
 def _returns_fresh(ctx, rel, q, rule, desc, summaries=None, only_if=None):
     fn = ctx.fn(rel, q)
-    eff = effects.Effects(fn, summaries=summaries or SUMM)
+    eff = effects.Effects(fn, summaries=_class_fresh_summaries(ctx, rel, q, summaries or SUMM))
     rets = [s for s in ast.walk(fn) if isinstance(s, ast.Return) and s.value is not None]
     bad = []
     for r in rets:
